@@ -117,6 +117,8 @@ def generate(seed, tier):
             ops.append(["other"])
         elif r < 0.63:
             ops.append(["refill", rw.randrange(2 ** 31), rw.choice(["noise", "randwalk", "sine+noise"])])
+        elif r < 0.66:
+            ops.append(["wrapper", rw.choice(["compute_spectrum", "lpsd"])]); nres += 1
         elif r < 0.80 and nres:
             ops.append(["attr", rw.randrange(nres), rw.choice(ATTRS)])
         elif r < 0.90 and nres:
@@ -332,6 +334,18 @@ def execute(sc, out):
                             out.count("single_bin_between_computes" if ncompute > 1 else "compute_after_single")
                         if cfg.get("force_target_nf"):
                             out.count("forced_nf")
+                    elif kind == "wrapper":
+                        import speckit as _sk
+
+                        r = getattr(_sk, op[1])(buf, cfg["fs"], **SC.analyzer_kwargs(cfg))
+                        eraw, evals = baseline_for_now()
+                        raw = SS.raw_fields(r)
+                        d = SS.diff_fields(raw, eraw, SS.RAW_CMP)
+                        if d is not None:
+                            out.violate("compute_differs_from_baseline", f"world={world} field={d}",
+                                        f"speckit.{op[1]}(data, fs, ...) in the middle of the history differs from the fresh serial baseline in {d}")
+                        results.append(("compute", r, eraw, evals))
+                        out.count("module_level_wrapper")
                     elif kind == "single":
                         f, kw = _resolve_single(op, base_raw, cfg, data)
                         if f is None:
